@@ -138,7 +138,7 @@ PROPERTIES = {
     "C02": dict(
         modules=["contracts.c02_documents", "contracts.c17_settings", "contracts.c03_arguments"],
         bounded=[_bounded.lazy("contracts.e2e_variables", "bounded_method_locals"), _bounded.lazy("contracts.e2e_documents", "bounded_documents"),
-                 _bounded.lazy("contracts.c11_multipart", "bounded_wire")],
+                 _bounded.lazy("contracts.c11_multipart", "bounded_wire"), _bounded.lazy("contracts.e2e_fuzz", "bounded_generated_documents")],
         explanation="method-body templates (the bound query text is what is sent, under every renaming of the method locals), operation validation rule set; whole documents by an end-to-end bounded stand-in",
         assumptions=["embedding of the text in Python source (splitlines, ast.unparse, regex rewrite, isort, black) is outside the solvers' fragment: bounded stand-in only"],
     ),
